@@ -33,7 +33,7 @@ func (p path) prependMetadataMerge() path {
 			}
 			metadataWithMerge := make(jsonArray, len(metadata)+1)
 			metadataWithMerge[0] = jsonString(MERGE.string())
-			copy(metadataWithMerge, metadata)
+			copy(metadataWithMerge[1:], metadata)
 			pathWithMetadataMerge[0] = metadataWithMerge
 			return pathWithMetadataMerge
 		} else {
